@@ -48,6 +48,15 @@ def generate(rng, tier, mode="default"):
         out.append([hdr(1, "2/1", "conf", plan)] + base + ["END"])
         out.append([hdr(2, "3/2", "libc", plan)] + base + ["END"])
         out.append([hdr(1, "2/1", "conf", plan, "stack"), "s0 push 2", "s0 push 3", "s0 push 4", "s1 = s0 filter", "s0 push 6", "s1 push 8", "s0 pop", "END"])
+    # (d2) every allocation of every allocating operation refused in turn (constructor = 2 grants; no growth before the
+    #      operation): header and buffer of the derived arrays, trim's new buffer, the stack filter's three blocks
+    fill3 = ["h0 add 16", "h0 add 17", "h0 add 18"]
+    for op in ("h1 = h0 copy_shallow", "h1 = h0 copy_deep", "h1 = h0 filter", "h1 = h0 subarray 0 1", "h0 trim", "h0 add 19", "h0 add_at 19 1"):
+        for cap in (3, 4):
+            for plan in ("110", "1110", "11110"):
+                out.append([hdr(cap, "2/1", "conf", plan)] + fill3 + [op, "h0 size", "h0 get_last", "h0 add 20", "h1 add 21", "h1 size", "END"])
+    for plan in ("1110", "11110", "111110", "1111110"):
+        out.append([hdr(4, "2/1", "conf", plan, "stack"), "s0 push 2", "s0 push 3", "s0 push 4", "s1 = s0 filter", "s0 push 6", "s1 push 8", "s0 pop", "s1 pop", "END"])
     if not quick:
         for k in range(0, 12):
             for j in range(k + 1, 13):
@@ -76,6 +85,11 @@ def generate(rng, tier, mode="default"):
                     prev = o.split()[0]
                 if not okp: continue
                 out.append([hdr(max(size1, 1)), *fill, "z0 = h0 h1 zip"] + ["z0 " + o for o in w] + ["z0 next", "END"])
+    # a second remove without a new yield is refused (defined behaviour, VALUE_NOT_FOUND) - single and zip iterator
+    for size in (1, 2, 3):
+        fill = ["h0 add %d" % (16 * (k + 1)) for k in range(size)]
+        out.append([hdr(4), *fill, "i0 = h0 iter", "i0 next", "i0 remove", "i0 remove", "i0 next", "h0 size", "END"])
+        out.append([hdr(4), *fill, "h1 = h0 copy_shallow", "z0 = h0 h1 zip", "z0 next", "z0 remove", "z0 remove", "z0 next", "z0 remove", "h0 size", "h1 size", "END"])
     # (c2) filter_mut / filter on every keep/drop pattern of length <= 7 (8 thorough): every cluster shape of the
     #      backwards scan (leading, trailing, interior runs of rejected elements, single survivors)
     for n in range(0, 8 if quick else 9):
